@@ -43,19 +43,6 @@ case("F-N", "C16", "goimports-same-imports",
      "package src\n\nimport \"example.com/w/deps/zzz\"\n\ntype Doer interface {\n\tDo(v yaml.Node) error\n}\n", cfg(["Doer"], invoke="foreignabs"),
      extra={"deps/zzz/zzz.go": "package yaml\n\ntype Node struct{ A int }\n"},
      note="goimports run from a cwd outside the module cannot resolve package yaml in directory zzz and removes the import")
-case("F-G", "C01", "parses",
-     "package src\n\ntype Doer interface {\n\tDo(über int) error\n}\n", cfg(["Doer"]),
-     note="byte slicing of a non-ASCII first letter yields invalid UTF-8")
-case("F-H", "C01", "parses",
-     "package src\n\nimport \"unsafe\"\n\ntype Doer interface {\n\tDo([]unsafe.Pointer) error\n}\n", cfg(["Doer"]),
-     note="unnamed []unsafe.Pointer parameter is named unsafe.Pointers")
-case("F-I", "C01", "typechecks",
-     "package src\n\nimport \"example.com/w/dep\"\n\ntype Doer[T interface{ dep.A | dep.B }] interface {\n\tDo(v T) error\n}\n", cfg(["Doer"], skip_ensure=True),
-     extra={"dep/dep.go": "package dep\n\ntype A int\n\ntype B string\n"},
-     note="named types inside an inline union constraint are not walked: import missing, types unqualified")
-case("F-M", "C09", "tparam-count",
-     "package src\n\ntype Base[T any] interface {\n\tGet() T\n}\n\ntype Alias[T any] = Base[T]\n", cfg(["Alias"], skip_ensure=True),
-     note="generic alias: the mock loses the type parameter")
 
 def fcase(fid, prop, oracle, files, cfg_, scenario, note):
     c = {"property": prop, "oracle": oracle, "mod_path": "example.com/w", "files": files, "src_dir": "src",
